@@ -151,6 +151,16 @@ def check(ctx):
     # R20.7 a poll / send that finds the ring empty / full gives up when the caller's callback says so (the channels pass `false`): shared with C16 R16.4
     import importlib
     importlib.import_module("props.C16").check_callback_polarity(util.PrefixedCtx(ctx, "R20.7"), "R16.4")
+    # R20.8 'length queries, flush and close stay bounded while a setter is suspended': the rings' length queries count PUBLISHED elements (tail - head), never
+    # reserved ones (enqueuer_tail - head): a reservation parked in a suspended setter would otherwise keep pending_items_count() > 0 with nothing consumable,
+    # and an unbounded flush / close never returns (shared with C02 R02.2)
+    C02 = importlib.import_module("props.C02")
+    class OnlyLen(util.PrefixedCtx):
+        def ob(self, rule, key, ok, site="", detail="", nontrivial=True, undecided=False):
+            if rule == "R02.2" and "available_elements_count" in key: return super().ob(rule, key, ok, site, detail, nontrivial, undecided)
+            return ok
+    C02.check(OnlyLen(ctx, "R20.8"))
+    ctx.floor("R20.8", 2)
 
 
 def _r20_6(ctx):
@@ -186,7 +196,37 @@ def _r20_6(ctx):
             ctx.ob("R20.6", f"{k}|no-waiting-loop", bad is None, bad[0] if bad else f"{fam[0]['file']}:{fam[0]['line']}",
                    "no loop that waits (spin / yield / sleep / atomic poll) in this producer operation" if bad is None else
                    f"{bad[1]}: this producer operation waits for somebody else's progress -- with another producer's async setter suspended it may wait forever")
-    ctx.floor("R20.6", 40)
+    n += check_container_no_wait(ctx, "R20.6")
+    ctx.floor("R20.6", 70)
+
+
+def check_container_no_wait(ctx, rule):
+    import roles as R
+    from mir import Body
+    fx = ctx.fx
+    n = 0
+    # ... nor does the layer underneath: the zero-copy containers and the pool answer "no slot" at once.  A `leak_slot` / `alloc_ref` that waits for a slot to come back
+    # waits for a consumer to release one -- or for a suspended send_with_async, which keeps its slot out of the pool without anything being in the ring
+    # (the retry loops of the two rings themselves are C02 / C16 territory: R02.6 / R16.1 / R16.4)
+    TAKES = ("alloc_ref", "alloc_with", "consume_movable", "leak_slot", "leak_slot_internal")
+    for f in fx.fns:
+        owner = f.get("impl_self") or ""
+        if owner not in (R.AZC, R.FZC, R.POOL): continue
+        if "::{closure#" in f["key"]: continue
+        body = Body(f)
+        bad = None
+        for h, blocks in body.loops.items():
+            calls = [body.term(b)[1] for b in blocks if body.term(b)[0] == "Call"]
+            names = {c.get("fname") for c in calls}
+            if names & set(WAITS): bad = (body.loc(h), "waits: " + ", ".join(sorted(names & set(WAITS)))); break
+            # a loop whose exit depends on the answer of a slot request retries it
+            if names & set(TAKES) and f["key"].split("::")[-1] not in ("new", "drop", "fmt"):
+                bad = (body.loc(h), "retries " + ", ".join(sorted(names & set(TAKES))) + " in a loop"); break
+        n += 1
+        ctx.ob(rule, f"{f['key']}|no-waiting-loop", bad is None, bad[0] if bad else f"{f['file']}:{f['line']}",
+               "no loop that waits for a slot in this container / pool operation" if bad is None else
+               f"{bad[1]}: a request for a slot that waits for one to come back waits for whoever holds it -- possibly a producer whose async setter is suspended")
+    return n
 
 
 def _r20_5(ctx):
